@@ -23,7 +23,7 @@ RULE = ('(a) seeded 2-D integrator histories: chunks / predict / set_pva, initia
         'C10) with an initial state whose VD is non-zero; non-trivial = non-zero supplied VD or non-level specific force or a '
         'filter run (the existing 2-D tests are level and drop the affected columns); distinct = distinct seeds')
 ASSUMPTIONS = ['zero means == 0.0 (either sign of zero); altitude equality is bitwise']
-REQUIRED_OBS = ['coarse_initial_position_runs', 'twoD_rows_checked', 'set_pva_calls', 'predict_calls', 'filter_rows_checked', 'sd_tables_checked',
+REQUIRED_OBS = ['vertical_row_semantics_checked', 'coarse_initial_position_runs', 'twoD_rows_checked', 'set_pva_calls', 'predict_calls', 'filter_rows_checked', 'sd_tables_checked',
                 'measurement_rows_checked', 'feedback_runs', 'feedforward_runs']
 REQUIRED_CLASSES = {'all': ['history', 'feedback', 'feedforward', 'measurement_history']}
 
@@ -62,12 +62,19 @@ def run_measurement_history(case):
     lever = [1.0, -0.5, 0.3]
     objs = [measurements.Position(sim.generate_position_measurements(traj, 1.0, 1), 1.0), measurements.Position(sim.generate_position_measurements(traj, 1.0, 1), 1.0, lever),
             measurements.NedVelocity(sim.generate_ned_velocity_measurements(traj, 0.3, 1), 0.3), measurements.NedVelocity(sim.generate_ned_velocity_measurements(traj, 0.3, 1), 0.3, lever)]
+    # velocity fixes whose vertical component is far off (777 m/s), also with the labelled columns in another order: the rows kept in
+    # 2-D must be the north / east ones (a dropped "last" row is only the vertical one if the rows are in N, E, D order)
+    vd = sim.generate_ned_velocity_measurements(traj, 0.3, 1)
+    vd['VD'] += 777.0
+    pd_ = sim.generate_position_measurements(traj, 1.0, 1)
+    objs += [measurements.NedVelocity(vd, 0.3), measurements.NedVelocity(vd[['VE', 'VD', 'VN']], 0.3, lever), measurements.NedVelocity(vd[['VD', 'VN', 'VE']], 0.3),
+             measurements.Position(pd_[['alt', 'lon', 'lat']], 1.0), measurements.Position(pd_[['lon', 'alt', 'lat']], 1.0, lever)]
     ems = {True: InsErrorModel(True), False: InsErrorModel(False)}
     out = []
     obs = {}
     pv = traj.iloc[2].copy()
     pv['alt'] += 499.0          # a large vertical separation: a vertical row that is not dropped is obvious
-    for step in range(16):
+    for step in range(24):
         o = objs[int(rng.integers(0, len(objs)))]
         wa = bool(rng.integers(0, 2))
         z, H, R = o.compute_matrices(tt[2], pv, ems[wa])
@@ -77,6 +84,11 @@ def run_measurement_history(case):
             out.append(vio('measurement_rows', f'{type(o).__name__} (used before under the other altitude mode) returned z{np.asarray(z).shape} H{np.asarray(H).shape} '
                            f'R{np.asarray(R).shape} with with_altitude={wa} at step {step}, expected {want} rows'))
             break
+        if not wa and np.abs(np.asarray(z, float)).max() > 100.0:
+            out.append(vio('vertical_row_kept', f'{type(o).__name__} (data columns {list(o.data.columns)}): 2-D residual {np.asarray(z, float).tolist()} contains the vertical '
+                           f'separation (altitude off by 499 m / VD off by 777 m/s): the row that was dropped is not the vertical one'))
+            break
+        obs['vertical_row_semantics_checked'] = obs.get('vertical_row_semantics_checked', 0) + int(not wa)
     return dict(violations=out, obs=obs, nontrivial=True, sample=dict(cls='measurement_history', steps=16))
 
 
